@@ -39,6 +39,9 @@ CONSTANTS RoutingKeysLast,  \* TRUE = current code (138d6b9): columnarToWALRecor
                             \* _database/_measurement AFTER the user's columns; FALSE = before the repair (user wins)
           ReplicaUsesRowDb, \* TRUE = current code (138d6b9): replicated row entries are applied under the row's
                             \* _database; FALSE = before the repair (no envelope -> "default")
+          TypedKeepsFirstM, \* FALSE = current code: the typed columnar fast path (msgpack_typed.go) falls back to
+                            \* the generic decoder on a repeated top-level "m", so every decoder is last-wins;
+                            \* TRUE = a fast path that keeps the FIRST "m" (negative control MC_dupfirst.cfg)
           CsvFallsThrough,  \* TRUE = as written: importPreamble answers 4xx but returns a nil error, so the
                             \* CSV import carries on with database "" and measurement "" and no check
           MaxDecoys,    \* 1 or 2
@@ -69,8 +72,22 @@ DecoySets(f) == {{}} \cup { {d} : d \in DecoysFor(f) }
 DecoyVal(d) == IF d.name \in DbNames THEN "other" ELSE "secret"
 
 MeasSetsFor(f) == IF f \in SingleRecord THEN {"ok", "denied"} ELSE MeasSets
-Request == UNION { { [form |-> f, hdr |-> h, q |-> qq, meas |-> ms, decoys |-> D] :
-                       h \in DbVals, qq \in DbVals, ms \in MeasSetsFor(f), D \in DecoySets(f) } : f \in Forms }
+\* duplicate top-level keys of a MessagePack map payload (hand-crafted bytes; first and last differ):
+\*   m_ok_denied   {m: cpu, ..., m: secret}      m_denied_ok  {m: secret, ..., m: cpu}
+\*   db_dup        {database: other, _database: other, m, ..., database: prod, _database: prod}
+DupVals   == {"none", "m_ok_denied", "m_denied_ok", "db_dup"}
+DupFor(f) == IF f \in {"mp_col", "mp_row"} THEN DupVals ELSE {"none"}
+DupM(r)   == r.dup \in {"m_ok_denied", "m_denied_ok"}
+FirstM(r) == IF r.dup = "m_ok_denied" THEN "cpu" ELSE "secret"
+LastM(r)  == IF r.dup = "m_ok_denied" THEN "secret" ELSE "cpu"
+Request == UNION { { [form |-> f, hdr |-> h, q |-> qq, meas |-> ms, decoys |-> D, dup |-> du] :
+                       h \in DbVals, qq \in DbVals, ms \in MeasSetsFor(f), D \in DecoySets(f), du \in DupFor(f) } : f \in Forms }
+\* measurement(s) the handler decodes: the typed fast path only serves a single columnar map (mp_col)
+HandlerMeas(r) == IF DupM(r) THEN {IF TypedKeepsFirstM /\ r.form = "mp_col" THEN FirstM(r) ELSE LastM(r)}
+                  ELSE MeasOf(r.meas)
+\* measurement(s) a generic (last-wins) decode of the raw client bytes yields: wal.Reader / parseColumnarEntry
+\* on recovery, coordinator ingest handler on a replica
+RawMeas(r)     == IF DupM(r) THEN {LastM(r)} ELSE MeasOf(r.meas)
 
 VARIABLES req, phase, db, checks, denied, live, wal, replay, replica, bypassed
 vars == <<req, phase, db, checks, denied, live, wal, replay, replica, bypassed>>
@@ -93,17 +110,17 @@ Handle ==
          /\ db' = d
          /\ IF d = "" THEN /\ phase' = (IF Bypass THEN "bypassed" ELSE "rejected")
                             /\ UNCHANGED <<checks, denied>>
-            ELSE /\ checks' = { <<d, m>> : m \in MeasOf(req.meas) }
+            ELSE /\ checks' = { <<d, m>> : m \in HandlerMeas(req) }
                  /\ denied' = (\E c \in checks' : c \notin AllowedPairs)
                  /\ phase' = (IF ~denied' THEN "authorized" ELSE IF Bypass THEN "bypassed" ELSE "rejected")
     /\ UNCHANGED <<req, live, wal, replay, replica, bypassed>>
 
 \* measurements the buffer sees: the payload's, or "" after a refused CSV preamble (as written)
-Ms == IF phase = "bypassed" \/ bypassed THEN {""} ELSE MeasOf(req.meas)
+Ms == IF phase = "bypassed" \/ bypassed THEN {""} ELSE HandlerMeas(req)
 Buffer ==
     /\ phase \in {"authorized", "bypassed"}
     /\ bypassed' = (phase = "bypassed")
-    /\ live' = IF phase = "bypassed" THEN {<<"", "">>} ELSE { <<db, m>> : m \in MeasOf(req.meas) }
+    /\ live' = IF phase = "bypassed" THEN {<<"", "">>} ELSE { <<db, m>> : m \in HandlerMeas(req) }
     /\ wal' = IF req.form = "mp_col" THEN "env" ELSE "rows"
     /\ phase' = "stored"
     /\ UNCHANGED <<req, db, checks, denied, replay, replica>>
@@ -126,14 +143,14 @@ ReplicaDb  == LET a == RowStr("_database", EffDb)
 
 Recover ==
     /\ phase = "stored" /\ replay = {}
-    /\ replay' = IF wal = "env" THEN live
+    /\ replay' = IF wal = "env" THEN { <<db, m>> : m \in RawMeas(req) }
                  ELSE { <<RowDb, RowMeas(m)>> : m \in { x \in Ms : RowMeas(x) # "" } }
     /\ phase' = "replayed"
     /\ UNCHANGED <<req, db, checks, denied, live, wal, replica, bypassed>>
 
 Replicate ==
     /\ phase = "replayed"
-    /\ replica' = IF wal = "env" THEN live
+    /\ replica' = IF wal = "env" THEN { <<db, m>> : m \in RawMeas(req) }
                   ELSE { <<ReplicaDb, RowMeas(m)>> : m \in { x \in Ms : RowMeas(x) # "" } }
     /\ phase' = "done"
     /\ UNCHANGED <<req, db, checks, denied, live, wal, replay, bypassed>>
@@ -154,7 +171,7 @@ TypeOK == phase \in {"recv", "rejected", "authorized", "bypassed", "stored", "re
 SetToSeq(S) == IF S = {} THEN <<>> ELSE LET RECURSIVE F(_) F(T) == IF T = {} THEN <<>> ELSE LET x == CHOOSE y \in T : TRUE IN <<x>> \o F(T \ {x}) IN F(S)
 EmitInv ==
     (Emit /\ phase \in {"done", "rejected"}) =>
-        PrintT(<<"TRACE", ToJson([form |-> req.form, hdr |-> req.hdr, q |-> req.q, meas |-> req.meas,
+        PrintT(<<"TRACE", ToJson([form |-> req.form, hdr |-> req.hdr, q |-> req.q, meas |-> req.meas, dup |-> req.dup,
                                   decoys |-> SetToSeq(req.decoys), db |-> db, rejected |-> (phase = "rejected" \/ bypassed),
                                   checks |-> SetToSeq(checks), live |-> SetToSeq(live), wal |-> wal,
                                   replay |-> SetToSeq(replay), replica |-> SetToSeq(replica)])>>)
